@@ -124,16 +124,21 @@ def domain_product_size(spec):
     return size
 
 
-def solution_set(spec):
+def has_zero_duration_no_overlap(spec):
+    return any(c[0] == "no_overlap" and any(d == 0 for d in c[2]) for c in spec["cons"])
+
+
+def solution_set(spec, lenient=True):
     """Set of tuples over the NAMED variables (in spec order) that extend to a full assignment satisfying all
-    constraints (anonymous variables are existentially quantified)."""
+    constraints (anonymous variables are existentially quantified).  lenient=False uses the strict reading of
+    no_overlap for zero-duration tasks (end_i <= start_j or end_j <= start_i for every pair)."""
     vars_ = spec["vars"]
     named = [i for i, v in enumerate(vars_) if v[0] is not None]
     out = set()
     doms = [range(lb, ub + 1) for _, lb, ub in vars_]
     cons = spec["cons"]
     for vals in product(*doms):
-        if all(holds(c, vals) for c in cons):
+        if all(holds(c, vals, lenient_zero_duration=lenient) for c in cons):
             out.add(tuple(vals[i] for i in named))
     return out
 
